@@ -1,10 +1,14 @@
-(* IpMatchProofs.v — ip_match on documented IPv4 / CIDR arguments is block membership
-   x / 2^(32-n) = net / 2^(32-n); bad networks answer False; bad addresses raise ValueError. *)
-From Coq Require Import List NArith Bool Lia.
+(* IpMatchProofs.v — ip_match on documented arguments (either family; address, address/prefix, IPv4
+   address/netmask|hostmask) is block membership x / 2^(W-n) = net / 2^(W-n) (W = 32 / 128) and false
+   across families; dotted masks denote exactly the prefix lengths of contiguous net/host masks;
+   IPv6 texts (any case, leading zeros, '::' anywhere it may stand, dotted-quad tail) denote the integer
+   of their groups; bad networks answer False; bad addresses raise ValueError. *)
+From Coq Require Import List NArith Bool Lia Arith.
 From PyCasbin Require Import Base PatBase IpMatch.
 Import ListNotations.
 Local Open Scope N_scope.
 
+(* ================================================================ IPv4 text *)
 Lemma parse_octet_bound : forall s v, parse_octet s = Some v -> v <= 255.
 Proof.
   intros s v. unfold parse_octet. destruct s as [|c0 r]; [discriminate|].
@@ -13,6 +17,12 @@ Proof.
   destruct ((c0 =? 48) && negb (is_nil r)); [discriminate|].
   destruct (N.ltb_spec 255 (parse_dec (c0 :: r))) as [Hlt|Hle]; [discriminate|].
   intro HH; inversion HH; subst. assumption.
+Qed.
+
+Lemma parse_octet_digits : forall s v, parse_octet s = Some v -> forallb is_digit s = true /\ s <> [].
+Proof.
+  intros s v. unfold parse_octet. destruct s as [|c0 r]; [discriminate|].
+  destruct (forallb is_digit (c0 :: r)); [|discriminate]. intros _. split; [reflexivity|discriminate].
 Qed.
 
 Lemma parse_ip4_bound : forall s x, parse_ip4 s = Some x -> x < 2 ^ 32.
@@ -27,12 +37,196 @@ Proof.
   intro H; inversion H; subst. change (2 ^ 32) with 4294967296. lia.
 Qed.
 
+(* ---------------------------------------------------------------- split / join *)
+Lemma split_on_nonempty : forall sep s, split_on sep s <> [].
+Proof.
+  intros sep s. induction s as [|c r IH]; simpl; [discriminate|].
+  destruct (c =? sep); [discriminate|]. destruct (split_on sep r); [contradiction|discriminate].
+Qed.
+
+Lemma split_on_nosep : forall sep s, has_char sep s = false -> split_on sep s = [s].
+Proof.
+  intros sep s. unfold has_char. induction s as [|c r IH]; simpl; [reflexivity|].
+  intro H. apply orb_false_iff in H. destruct H as [Hc Hr]. rewrite Hc, (IH Hr). reflexivity.
+Qed.
+
+Lemma split_on_app : forall sep p r, has_char sep p = false ->
+  split_on sep (p ++ sep :: r) = p :: split_on sep r.
+Proof.
+  intros sep p r. unfold has_char. induction p as [|c p IH]; simpl.
+  - intros _. rewrite N.eqb_refl. reflexivity.
+  - intro H. apply orb_false_iff in H. destruct H as [Hc Hp]. rewrite Hc, (IH Hp). reflexivity.
+Qed.
+
+Lemma split_join : forall sep ps, ps <> [] -> Forall (fun p => has_char sep p = false) ps ->
+  split_on sep (join sep ps) = ps.
+Proof.
+  intros sep ps. induction ps as [|p rest IH]; [congruence|].
+  intros _ HF. inversion HF as [|? ? Hp Hrest]; subst. simpl.
+  destruct rest as [|q rest'].
+  - apply split_on_nosep. assumption.
+  - rewrite split_on_app by assumption. f_equal. apply IH; [discriminate|assumption].
+Qed.
+
+(* every character of s other than sep lies in a piece of the split *)
+Lemma split_on_chars : forall sep s c, In c s -> c <> sep -> exists p, In p (split_on sep s) /\ In c p.
+Proof.
+  intros sep s c. induction s as [|d r IH]; simpl; [contradiction|].
+  intros [->|Hin] Hne.
+  - destruct (N.eqb_spec c sep) as [E|E]; [contradiction|].
+    destruct (split_on sep r) as [|h t] eqn:Es.
+    + exists [c]. split; left; reflexivity.
+    + exists (c :: h). split; left; reflexivity.
+  - destruct (IH Hin Hne) as [p [Hp Hc]].
+    destruct (d =? sep).
+    + exists p. split; [right; assumption|assumption].
+    + destruct (split_on sep r) as [|h t]; [contradiction|].
+      destruct Hp as [<-|Hp].
+      * exists (d :: h). split; [left; reflexivity|right; assumption].
+      * exists p. split; [right; assumption|assumption].
+Qed.
+
+Definition digit_or_dot (c : N) : bool := is_digit c || (c =? cDOT).
+
+Lemma parse_ip4_chars : forall s x, parse_ip4 s = Some x -> forallb digit_or_dot s = true.
+Proof.
+  intros s x H. apply forallb_forall. intros c Hc. unfold digit_or_dot.
+  destruct (N.eqb_spec c cDOT) as [E|E]; [apply orb_true_r|]. rewrite orb_false_r.
+  destruct (split_on_chars cDOT s c Hc E) as [p [Hp Hcp]].
+  unfold parse_ip4 in H.
+  destruct (split_on cDOT s) as [|a [|b [|c' [|d [|? ?]]]]]; try discriminate.
+  destruct (parse_octet a) as [va|] eqn:Ea; [|discriminate].
+  destruct (parse_octet b) as [vb|] eqn:Eb; [|discriminate].
+  destruct (parse_octet c') as [vc|] eqn:Ec; [|discriminate].
+  destruct (parse_octet d) as [vd|] eqn:Ed; [|discriminate].
+  apply parse_octet_digits in Ea, Eb, Ec, Ed.
+  destruct Ea as [Ea _], Eb as [Eb _], Ec as [Ec _], Ed as [Ed _].
+  rewrite forallb_forall in Ea, Eb, Ec, Ed.
+  destruct Hp as [<-|[<-|[<-|[<-|[]]]]]; auto.
+Qed.
+
+Lemma parse_ip4_has_dot : forall s x, parse_ip4 s = Some x -> has_char cDOT s = true.
+Proof.
+  intros s x H. destruct (has_char cDOT s) eqn:E; [reflexivity|].
+  unfold parse_ip4 in H. rewrite (split_on_nosep _ _ E) in H. discriminate.
+Qed.
+
+Lemma digit_or_dot_not : forall s c, forallb digit_or_dot s = true -> digit_or_dot c = false -> has_char c s = false.
+Proof.
+  intros s c H Hc. unfold has_char. induction s as [|d r IH]; simpl; [reflexivity|].
+  simpl in H. apply andb_true_iff in H. destruct H as [Hd Hr].
+  rewrite (IH Hr), orb_false_r. destruct (N.eqb_spec d c) as [->|]; [congruence|reflexivity].
+Qed.
+
+Lemma parse_ip4_no_char : forall s x c, parse_ip4 s = Some x -> digit_or_dot c = false -> has_char c s = false.
+Proof. intros s x c H Hc. eapply digit_or_dot_not; [eapply parse_ip4_chars; eassumption|assumption]. Qed.
+
+(* ================================================================ prefix lengths and dotted masks *)
+Lemma prefix_string_ok : forall W m n, prefix_from_prefix_string W m = Some n -> n <= W.
+Proof.
+  intros W m n. unfold prefix_from_prefix_string.
+  destruct (is_nil m); [discriminate|]. destruct (negb (forallb is_digit m)); [discriminate|].
+  destruct (4300 <? N.of_nat (length m)); [discriminate|].
+  destruct (N.ltb_spec W (parse_dec m)) as [Hlt|Hle]; [discriminate|]. intro HH; inversion HH; subst; assumption.
+Qed.
+
+Lemma ctz_le_fuel : forall f m, ctz f m <= N.of_nat f.
+Proof.
+  induction f as [|f IH]; intro m; [simpl; lia|].
+  cbn [ctz]. rewrite Nat2N.inj_succ. destruct (N.odd m); [lia|]. specialize (IH (N.div2 m)). lia.
+Qed.
+
+Lemma ctz_low_zero : forall f m, m mod 2 ^ ctz f m = 0.
+Proof.
+  induction f as [|f IH]; intro m; cbn [ctz].
+  - change (2 ^ 0) with 1. apply N.mod_1_r.
+  - destruct (N.odd m) eqn:Eo.
+    + change (2 ^ 0) with 1. apply N.mod_1_r.
+    + assert (Hm : m = 2 * N.div2 m).
+      { rewrite (N.div2_odd m) at 1. rewrite Eo. simpl. lia. }
+      rewrite N.pow_add_r. change (2 ^ 1) with 2.
+      rewrite Hm at 1.
+      rewrite N.mul_mod_distr_l; [|apply N.pow_nonzero; discriminate|discriminate].
+      rewrite IH. reflexivity.
+Qed.
+
+Lemma crz_le : forall m, count_righthand_zero_bits m 32 <= 32.
+Proof.
+  intro m. unfold count_righthand_zero_bits. destruct (m =? 0); [lia|]. apply N.le_min_l.
+Qed.
+
+Lemma crz_low_zero : forall m, m mod 2 ^ count_righthand_zero_bits m 32 = 0.
+Proof.
+  intro m. unfold count_righthand_zero_bits. destruct (N.eqb_spec m 0) as [->|Hne].
+  - apply N.mod_0_l. apply N.pow_nonzero. discriminate.
+  - rewrite N.min_r by (apply (ctz_le_fuel 32)). apply ctz_low_zero.
+Qed.
+
+(* a netmask pattern 1*0* is 2^32 - 2^(32-p) *)
+Lemma prefix_from_ip_int_sound : forall m p, prefix_from_ip_int m = Some p ->
+  p <= 32 /\ m = 2 ^ 32 - 2 ^ (32 - p).
+Proof.
+  intros m p. unfold prefix_from_ip_int.
+  set (tz := count_righthand_zero_bits m 32).
+  assert (Htz : tz <= 32) by apply crz_le.
+  assert (Hz : m mod 2 ^ tz = 0) by apply crz_low_zero.
+  clearbody tz.
+  destruct (N.eqb_spec (N.shiftr m tz) (N.shiftl 1 (32 - tz) - 1)) as [E|E]; [|discriminate].
+  intro HH. assert (Hpe : p = 32 - tz) by congruence. clear HH. subst p. split; [lia|].
+  rewrite N.shiftr_div_pow2, N.shiftl_1_l in E.
+  assert (Hp : 2 ^ tz <> 0) by (apply N.pow_nonzero; discriminate).
+  rewrite (N.div_mod m (2 ^ tz) Hp), Hz, E, N.add_0_r.
+  replace (32 - (32 - tz)) with tz by lia.
+  rewrite N.mul_sub_distr_l, N.mul_1_r, <- N.pow_add_r.
+  replace (tz + (32 - tz)) with 32 by lia. reflexivity.
+Qed.
+
+Lemma le32_cases : forall p, p <= 32 -> In p (map N.of_nat (seq 0 33)).
+Proof.
+  intros p Hp. rewrite <- (N2Nat.id p). apply in_map. apply in_seq. lia.
+Qed.
+
+Lemma mask_int_netmask : forall p, p <= 32 -> prefix_from_mask_int (2 ^ 32 - 2 ^ (32 - p)) = Some p.
+Proof.
+  intros p Hp. apply le32_cases in Hp. simpl in Hp.
+  repeat (destruct Hp as [<-|Hp]; [vm_compute; reflexivity|]). contradiction.
+Qed.
+
+Lemma mask_int_hostmask : forall p, 0 < p -> p < 32 -> prefix_from_mask_int (2 ^ (32 - p) - 1) = Some p.
+Proof.
+  intros p H0 Hp. assert (Hle : p <= 32) by lia. apply le32_cases in Hle. simpl in Hle.
+  repeat (destruct Hle as [<-|Hle]; [first [lia | vm_compute; reflexivity]|]). contradiction.
+Qed.
+
+Lemma lxor_ones32 : forall m, m < 2 ^ 32 -> N.lxor m ones32 = ones32 - m.
+Proof.
+  intros m Hm. change ones32 with (N.ones 32). change (N.lxor m (N.ones 32)) with (N.lnot m 32).
+  apply N.lnot_sub_low.
+  destruct (N.eq_dec m 0) as [->|Hne]; [reflexivity|]. apply N.log2_lt_pow2; lia.
+Qed.
+
+(* a dotted mask denotes p only if it is the netmask or the hostmask of p: other patterns are rejected *)
+Lemma mask_int_sound : forall m p, m < 2 ^ 32 -> prefix_from_mask_int m = Some p ->
+  p <= 32 /\ (m = 2 ^ 32 - 2 ^ (32 - p) \/ m = 2 ^ (32 - p) - 1).
+Proof.
+  intros m p Hm. unfold prefix_from_mask_int.
+  destruct (prefix_from_ip_int m) as [q|] eqn:E1.
+  - intro HH; inversion HH; subst q. apply prefix_from_ip_int_sound in E1. destruct E1; auto.
+  - intro E2. apply prefix_from_ip_int_sound in E2. destruct E2 as [Hp E2]. split; [assumption|right].
+    rewrite lxor_ones32 in E2 by assumption.
+    assert (Hpow : 0 < 2 ^ (32 - p)) by (apply N.neq_0_lt_0, N.pow_nonzero; discriminate).
+    assert (Hle : 2 ^ (32 - p) <= 2 ^ 32) by (apply N.pow_le_mono_r; lia).
+    change ones32 with 4294967295 in E2. change (2 ^ 32) with 4294967296 in *. lia.
+Qed.
+
 Lemma parse_prefix_ok : forall m net n, parse_prefix m = NetOk net n -> n <= 32.
 Proof.
-  intros m net n. unfold parse_prefix. destruct (is_nil m); [discriminate|].
-  destruct (forallb is_digit m).
-  - destruct (N.ltb_spec 32 (parse_dec m)) as [Hlt|Hle]; [discriminate|]. intro HH; inversion HH; subst; assumption.
-  - destruct (forallb digit_or_dot m); discriminate.
+  intros m net n. unfold parse_prefix.
+  destruct (prefix_from_prefix_string 32 m) as [k|] eqn:E1.
+  - intro HH; inversion HH; subst. eapply prefix_string_ok; eassumption.
+  - unfold prefix_from_ip_string. destruct (parse_ip4 m) as [v|] eqn:E2; [|discriminate].
+    destruct (prefix_from_mask_int v) as [k|] eqn:E3; [|discriminate].
+    intro HH; inversion HH; subst. apply mask_int_sound in E3; [tauto|eapply parse_ip4_bound; eassumption].
 Qed.
 
 Lemma parse_net_ok : forall s net n, parse_net s = NetOk net n -> n <= 32 /\ net < 2 ^ 32.
@@ -41,83 +235,1005 @@ Proof.
   destruct (split_on cSLASH s) as [|a [|m [|? ?]]]; try discriminate.
   - destruct (parse_ip4 a) as [x|] eqn:E; [|discriminate]. intro H; inversion H; subst.
     split; [lia|eapply parse_ip4_bound; eassumption].
-  - destruct (parse_prefix m) as [z k| |] eqn:Em; try discriminate.
-    + destruct (parse_ip4 a) as [x|] eqn:E; [|discriminate]. intro H; inversion H; subst.
-      split; [eapply parse_prefix_ok; eassumption|eapply parse_ip4_bound; eassumption].
-    + destruct (parse_ip4 a); discriminate.
+  - destruct (parse_prefix m) as [z k|] eqn:Em; try discriminate.
+    destruct (parse_ip4 a) as [x|] eqn:E; [|discriminate]. intro H; inversion H; subst.
+    split; [eapply parse_prefix_ok; eassumption|eapply parse_ip4_bound; eassumption].
 Qed.
 
-(* the netmask keeps exactly the top n of 32 bits *)
-Lemma land_netmask : forall n x, n <= 32 -> x < 2 ^ 32 ->
-  N.land x (netmask n) = N.shiftl (N.shiftr x (32 - n)) (32 - n).
+(* ================================================================ masks and blocks, any width *)
+(* the netmask keeps exactly the top n of W bits *)
+Lemma land_mask : forall W n x, n <= W -> x < 2 ^ W ->
+  N.land x (mask W n) = N.shiftl (N.shiftr x (W - n)) (W - n).
 Proof.
-  intros n x Hn Hx. apply N.bits_inj. intro i.
-  rewrite N.land_spec. unfold netmask. rewrite N.lxor_spec, N.shiftr_spec by lia.
-  change ones32 with (N.ones 32).
-  destruct (N.ltb_spec i (32 - n)) as [Hi|Hi].
+  intros W n x Hn Hx. apply N.bits_inj. intro i.
+  rewrite N.land_spec. unfold mask. rewrite N.lxor_spec, N.shiftr_spec by lia.
+  destruct (N.ltb_spec i (W - n)) as [Hi|Hi].
   - rewrite N.shiftl_spec_low by assumption.
-    rewrite (N.ones_spec_low 32 i) by lia. rewrite (N.ones_spec_low 32 (i + n)) by lia.
+    rewrite (N.ones_spec_low W i) by lia. rewrite (N.ones_spec_low W (i + n)) by lia.
     simpl. apply andb_false_r.
   - rewrite N.shiftl_spec_high by lia. rewrite N.shiftr_spec by lia.
-    replace (i - (32 - n) + (32 - n)) with i by lia.
-    destruct (N.ltb_spec i 32) as [Hi2|Hi2].
-    + rewrite (N.ones_spec_low 32 i) by lia. rewrite (N.ones_spec_high 32 (i + n)) by lia.
+    replace (i - (W - n) + (W - n)) with i by lia.
+    destruct (N.ltb_spec i W) as [Hi2|Hi2].
+    + rewrite (N.ones_spec_low W i) by lia. rewrite (N.ones_spec_high W (i + n)) by lia.
       simpl. apply andb_true_r.
     + assert (Hb : N.testbit x i = false).
       { destruct (N.eq_dec x 0) as [E|E]; [subst; apply N.bits_0|].
-        apply N.bits_above_log2. apply N.lt_le_trans with 32; [|assumption].
+        apply N.bits_above_log2. apply N.lt_le_trans with W; [|assumption].
         apply N.log2_lt_pow2; [lia|assumption]. }
       rewrite Hb. reflexivity.
 Qed.
 
-Lemma mask_eq_iff_block : forall n x net, n <= 32 -> x < 2 ^ 32 -> net < 2 ^ 32 ->
-  (N.land x (netmask n) =? N.land net (netmask n)) = in_block x net n.
+Lemma mask_eq_iff_block_w : forall W n x net, n <= W -> x < 2 ^ W -> net < 2 ^ W ->
+  (N.land x (mask W n) =? N.land net (mask W n)) = in_block_w W x net n.
 Proof.
-  intros n x net Hn Hx Hnet. unfold in_block.
-  rewrite !land_netmask by assumption.
+  intros W n x net Hn Hx Hnet. unfold in_block_w.
+  rewrite !land_mask by assumption.
   rewrite !N.shiftl_mul_pow2, !N.shiftr_div_pow2.
-  assert (Hp : 2 ^ (32 - n) <> 0) by (apply N.pow_nonzero; discriminate).
-  destruct (N.eqb_spec (x / 2 ^ (32 - n)) (net / 2 ^ (32 - n))) as [E|E].
+  assert (Hp : 2 ^ (W - n) <> 0) by (apply N.pow_nonzero; discriminate).
+  destruct (N.eqb_spec (x / 2 ^ (W - n)) (net / 2 ^ (W - n))) as [E|E].
   - rewrite E. apply N.eqb_refl.
   - apply N.eqb_neq. intro H. apply E. apply N.mul_cancel_r in H; assumption.
 Qed.
 
+Lemma mask_eq_iff_block : forall n x net, n <= 32 -> x < 2 ^ 32 -> net < 2 ^ 32 ->
+  (N.land x (netmask n) =? N.land net (netmask n)) = in_block x net n.
+Proof. intros. apply mask_eq_iff_block_w; assumption. Qed.
+
+(* ================================================================ IPv6 text: hextets *)
+Definition P16 (k : nat) : N := 65536 ^ N.of_nat k.
+
+Lemma P16_S : forall k, P16 (S k) = P16 k * 65536.
+Proof. intro k. unfold P16. rewrite Nat2N.inj_succ, N.pow_succ_r'. apply N.mul_comm. Qed.
+
+Lemma P16_add : forall a b, P16 (a + b) = P16 a * P16 b.
+Proof. intros a b. unfold P16. rewrite Nat2N.inj_add. apply N.pow_add_r. Qed.
+
+Lemma P16_pos : forall k, 0 < P16 k.
+Proof. intro k. unfold P16. apply N.neq_0_lt_0, N.pow_nonzero. discriminate. Qed.
+
+Lemma P16_mono : forall a b, (a <= b)%nat -> P16 a <= P16 b.
+Proof. intros a b H. unfold P16. apply N.pow_le_mono_r; [discriminate|lia]. Qed.
+
+Lemma P16_8 : P16 8 = 2 ^ 128.
+Proof. reflexivity. Qed.
+
+Lemma hex_digit_val_le : forall c, hex_digit_val c <= 15.
+Proof.
+  intro c. unfold hex_digit_val, hex_val, is_digit.
+  destruct (N.leb_spec 48 c), (N.leb_spec c 57); simpl; try lia;
+  destruct (N.leb_spec 97 c), (N.leb_spec c 102); simpl; try lia;
+  destruct (N.leb_spec 65 c), (N.leb_spec c 70); simpl; lia.
+Qed.
+
+Lemma parse_hex_acc_bound : forall s a,
+  fold_left (fun a c => a * 16 + hex_digit_val c) s a < (a + 1) * 16 ^ N.of_nat (length s).
+Proof.
+  induction s as [|c r IH]; intro a.
+  - simpl. lia.
+  - cbn [fold_left length]. rewrite Nat2N.inj_succ, N.pow_succ_r'.
+    eapply N.lt_le_trans; [apply IH|].
+    pose proof (hex_digit_val_le c) as Hc.
+    rewrite N.mul_assoc. apply N.mul_le_mono_r. lia.
+Qed.
+
+Lemma parse_hextet_inv : forall s v, parse_hextet s = Some v ->
+  forallb is_hex s = true /\ (length s <= 4)%nat /\ s <> [] /\ v = parse_hex s.
+Proof.
+  intros s v. unfold parse_hextet.
+  destruct (forallb is_hex s); [|discriminate]. simpl.
+  destruct (Nat.ltb_spec 4 (length s)) as [Hl|Hl]; [discriminate|].
+  destruct s as [|c r]; [discriminate|]. cbn [is_nil]. intro HH; inversion HH.
+  repeat split; [exact Hl|discriminate].
+Qed.
+
+Lemma parse_hextet_intro : forall s, forallb is_hex s = true -> (length s <= 4)%nat -> s <> [] ->
+  parse_hextet s = Some (parse_hex s).
+Proof.
+  intros s H1 H2 H3. unfold parse_hextet. rewrite H1. simpl.
+  destruct (Nat.ltb_spec 4 (length s)); [lia|]. destruct s; [congruence|reflexivity].
+Qed.
+
+Lemma parse_hextet_bound : forall s v, parse_hextet s = Some v -> v < 65536.
+Proof.
+  intros s v H. apply parse_hextet_inv in H. destruct H as [_ [Hl [_ ->]]].
+  unfold parse_hex. eapply N.lt_le_trans; [apply parse_hex_acc_bound|].
+  rewrite N.add_0_l, N.mul_1_l. change 65536 with (16 ^ N.of_nat 4).
+  apply N.pow_le_mono_r; [discriminate|lia].
+Qed.
+
+Lemma parse_hextet_nonempty : forall s v, parse_hextet s = Some v -> is_nil s = false.
+Proof. intros s v H. apply parse_hextet_inv in H. destruct H as [_ [_ [H _]]]. destruct s; [congruence|reflexivity]. Qed.
+
+Lemma hex_no_char : forall s c, forallb is_hex s = true -> is_hex c = false -> has_char c s = false.
+Proof.
+  intros s c H Hc. unfold has_char. induction s as [|d r IH]; simpl; [reflexivity|].
+  simpl in H. apply andb_true_iff in H. destruct H as [Hd Hr].
+  rewrite (IH Hr), orb_false_r. destruct (N.eqb_spec d c) as [->|]; [congruence|reflexivity].
+Qed.
+
+Lemma parse_hextet_no_char : forall s v c, parse_hextet s = Some v -> is_hex c = false -> has_char c s = false.
+Proof. intros s v c H Hc. apply parse_hextet_inv in H. destruct H as [H _]. eapply hex_no_char; eassumption. Qed.
+
+(* leading zeros do not change a hextet *)
+Lemma hextet_leading_zero : forall t v, parse_hextet t = Some v -> (length t < 4)%nat ->
+  parse_hextet (48 :: t) = Some v.
+Proof.
+  intros t v H Hl. apply parse_hextet_inv in H. destruct H as [Hh [_ [Hne ->]]].
+  rewrite parse_hextet_intro; [reflexivity| |simpl; lia|discriminate].
+  simpl. rewrite Hh. reflexivity.
+Qed.
+
+(* case does not matter *)
+Definition swapcase (c : N) : N :=
+  if (97 <=? c) && (c <=? 122) then c - 32
+  else if (65 <=? c) && (c <=? 90) then c + 32
+  else c.
+
+Lemma hex_val_swapcase : forall c, hex_val (swapcase c) = hex_val c.
+Proof.
+  intro c. unfold swapcase.
+  destruct (N.leb_spec 97 c) as [Ha|Ha], (N.leb_spec c 122) as [Hb|Hb]; cbn [andb];
+  [|destruct (N.leb_spec 65 c) as [Hc|Hc], (N.leb_spec c 90) as [Hd|Hd]; cbn [andb]; try reflexivity..].
+  all: unfold hex_val, is_digit.
+  - destruct (N.leb_spec 48 (c - 32)), (N.leb_spec (c - 32) 57), (N.leb_spec 48 c), (N.leb_spec c 57); cbn [andb]; try lia;
+    destruct (N.leb_spec 97 (c - 32)), (N.leb_spec (c - 32) 102), (N.leb_spec 97 c), (N.leb_spec c 102); cbn [andb]; try lia;
+    destruct (N.leb_spec 65 (c - 32)), (N.leb_spec (c - 32) 70), (N.leb_spec 65 c), (N.leb_spec c 70); cbn [andb];
+      try lia; try reflexivity; f_equal; lia.
+  - lia.
+  - destruct (N.leb_spec 48 (c + 32)), (N.leb_spec (c + 32) 57), (N.leb_spec 48 c), (N.leb_spec c 57); cbn [andb]; try lia;
+    destruct (N.leb_spec 97 (c + 32)), (N.leb_spec (c + 32) 102), (N.leb_spec 97 c), (N.leb_spec c 102); cbn [andb]; try lia;
+    destruct (N.leb_spec 65 (c + 32)), (N.leb_spec (c + 32) 70), (N.leb_spec 65 c), (N.leb_spec c 70); cbn [andb];
+      try lia; try reflexivity; f_equal; lia.
+  - lia.
+Qed.
+
+Lemma parse_hex_swapcase : forall s a,
+  fold_left (fun a c => a * 16 + hex_digit_val c) (map swapcase s) a =
+  fold_left (fun a c => a * 16 + hex_digit_val c) s a.
+Proof.
+  induction s as [|c r IH]; intro a; [reflexivity|]. cbn [map fold_left].
+  unfold hex_digit_val at 2 4. rewrite hex_val_swapcase. apply IH.
+Qed.
+
+Lemma hextet_case : forall t, parse_hextet (map swapcase t) = parse_hextet t.
+Proof.
+  intro t. unfold parse_hextet. rewrite map_length.
+  assert (H : forallb is_hex (map swapcase t) = forallb is_hex t).
+  { induction t as [|c r IH]; [reflexivity|]. simpl. rewrite IH. unfold is_hex. rewrite hex_val_swapcase. reflexivity. }
+  rewrite H. unfold parse_hex. rewrite parse_hex_swapcase. destruct t; reflexivity.
+Qed.
+
+(* '%x' renderings read back *)
+Lemma hex_digit_ok : forall d, d < 16 -> is_hex (hex_digit d) = true /\ hex_digit_val (hex_digit d) = d.
+Proof.
+  intros d Hd. assert (Hle : d <= 32) by lia. apply le32_cases in Hle. simpl in Hle.
+  repeat (destruct Hle as [<-|Hle]; [first [lia | vm_compute; split; reflexivity]|]). contradiction.
+Qed.
+
+Lemma hex4_text : forall v, v < 65536 -> parse_hextet (hex4 v) = Some v.
+Proof.
+  intros v Hv.
+  assert (H3 : v / 4096 mod 16 < 16) by (apply N.mod_lt; discriminate).
+  assert (H2 : v / 256 mod 16 < 16) by (apply N.mod_lt; discriminate).
+  assert (H1 : v / 16 mod 16 < 16) by (apply N.mod_lt; discriminate).
+  assert (H0 : v mod 16 < 16) by (apply N.mod_lt; discriminate).
+  destruct (hex_digit_ok _ H3) as [A3 B3]. destruct (hex_digit_ok _ H2) as [A2 B2].
+  destruct (hex_digit_ok _ H1) as [A1 B1]. destruct (hex_digit_ok _ H0) as [A0 B0].
+  rewrite parse_hextet_intro; [|unfold hex4; simpl; rewrite A3, A2, A1, A0; reflexivity|simpl; lia|discriminate].
+  f_equal. unfold parse_hex, hex4. cbn [fold_left]. rewrite B3, B2, B1, B0.
+  pose proof (N.div_mod v 16 ltac:(discriminate)) as E0.
+  pose proof (N.div_mod (v / 16) 16 ltac:(discriminate)) as E1.
+  pose proof (N.div_mod (v / 16 / 16) 16 ltac:(discriminate)) as E2.
+  rewrite (N.div_div v 16 16) in E1, E2 by discriminate. change (16 * 16) with 256 in E1, E2.
+  rewrite (N.div_div v 256 16) in E2 by discriminate. change (256 * 16) with 4096 in E2.
+  assert (Hq : v / 4096 < 16) by (apply N.div_lt_upper_bound; [discriminate|exact Hv]).
+  rewrite (N.mod_small (v / 4096) 16) by assumption. lia.
+Qed.
+
+Lemma strip0_text : forall s v, parse_hextet s = Some v -> parse_hextet (strip0 s) = Some v.
+Proof.
+  induction s as [|c r IH]; intros v H; [exact H|].
+  cbn [strip0]. destruct r as [|d r']; [exact H|].
+  destruct (N.eqb_spec c 48) as [->|Hne]; [|exact H].
+  apply IH. apply parse_hextet_inv in H. destruct H as [Hh [Hl [_ ->]]].
+  simpl in Hh. rewrite parse_hextet_intro; [reflexivity|exact Hh|simpl in *; lia|discriminate].
+Qed.
+
+Lemma hex_of_text : forall v, v < 65536 -> parse_hextet (hex_of v) = Some v.
+Proof. intros v Hv. apply strip0_text, hex4_text, Hv. Qed.
+
+(* ================================================================ IPv6 text: groups *)
+
+Lemma parse_hextets_spec : forall ps l, parse_hextets ps = Some l <-> Forall2 hextet_text ps l.
+Proof.
+  induction ps as [|p rest IH]; intro l; simpl.
+  - split; intro H; [inversion H; constructor|inversion H; reflexivity].
+  - split.
+    + destruct (parse_hextet p) as [v|] eqn:Ep; [|discriminate].
+      destruct (parse_hextets rest) as [l'|] eqn:Er; [|discriminate].
+      intro H; inversion H; subst. constructor; [exact Ep|apply IH; reflexivity].
+    + intro H. inversion H as [|? v ? l' Hp Hr]; subst. unfold hextet_text in Hp. rewrite Hp.
+      apply IH in Hr. rewrite Hr. reflexivity.
+Qed.
+
+Lemma Forall2_len : forall {A B} (R : A -> B -> Prop) l1 l2, Forall2 R l1 l2 -> length l1 = length l2.
+Proof. intros A B R l1 l2 H. induction H; simpl; congruence. Qed.
+
+Lemma hextets_bound : forall ps l, Forall2 hextet_text ps l -> Forall (fun v => v < 65536) l.
+Proof.
+  intros ps l H. induction H; constructor; [eapply parse_hextet_bound; eassumption|assumption].
+Qed.
+
+Lemma hextets_nonempty : forall ps l, Forall2 hextet_text ps l -> Forall (fun p => is_nil p = false) ps.
+Proof.
+  intros ps l H. induction H; constructor; [eapply parse_hextet_nonempty; eassumption|assumption].
+Qed.
+
+Lemma compose_app : forall a l1 l2, compose a (l1 ++ l2) = compose (compose a l1) l2.
+Proof. intros. unfold compose. apply fold_left_app. Qed.
+
+Lemma compose_zeros : forall k a, compose a (repeat 0 k) = N.shiftl a (16 * N.of_nat k).
+Proof.
+  induction k as [|k IH]; intro a.
+  - simpl. rewrite N.shiftl_0_r. reflexivity.
+  - cbn [repeat]. unfold compose in *. cbn [fold_left]. rewrite IH, N.add_0_r.
+    rewrite !N.shiftl_mul_pow2, Nat2N.inj_succ.
+    replace (16 * N.succ (N.of_nat k)) with (16 + 16 * N.of_nat k) by lia.
+    rewrite N.pow_add_r. change (2 ^ 16) with 65536. lia.
+Qed.
+
+Lemma compose_bound : forall l a k, a < P16 k -> Forall (fun v => v < 65536) l ->
+  compose a l < P16 (k + length l).
+Proof.
+  induction l as [|v l IH]; intros a k Ha Hl.
+  - simpl. rewrite Nat.add_0_r. exact Ha.
+  - inversion Hl as [|? ? Hv Hl']; subst. unfold compose. cbn [fold_left length].
+    rewrite Nat.add_succ_r. change (S (k + length l)) with (S k + length l)%nat.
+    apply IH; [|exact Hl']. rewrite P16_S.
+    assert (a + 1 <= P16 k) by lia.
+    apply N.lt_le_trans with ((a + 1) * 65536); [lia|]. apply N.mul_le_mono_r. assumption.
+Qed.
+
+Lemma v6_from_parts_bound : forall parts x, v6_from_parts parts = Some x -> x < 2 ^ 128.
+Proof.
+  intros parts x. unfold v6_from_parts.
+  destruct (Nat.ltb 9 (length parts)); [discriminate|].
+  destruct (mid_empties 1 (tl parts)) as [|k [|? ?]]; [| |discriminate].
+  - destruct (negb (Nat.eqb (length parts) 8)) eqn:En; [discriminate|].
+    destruct (is_nil (hd [] parts)); [discriminate|]. destruct (is_nil (last parts [])); [discriminate|].
+    destruct (parse_hextets parts) as [v|] eqn:Ep; [|discriminate].
+    intro H; inversion H; subst. apply parse_hextets_spec in Ep.
+    apply negb_false_iff, Nat.eqb_eq in En.
+    rewrite <- P16_8. replace 8%nat with (0 + length v)%nat by (rewrite <- (Forall2_len _ _ _ Ep); exact En).
+    apply compose_bound; [apply P16_pos|eapply hextets_bound; eassumption].
+  - set (hi := if is_nil (hd [] parts) then (k - 1)%nat else k).
+    set (lo := if is_nil (last parts []) then (length parts - k - 1 - 1)%nat else (length parts - k - 1)%nat).
+    destruct (is_nil (hd [] parts) && negb (Nat.eqb hi 0)); [discriminate|].
+    destruct (is_nil (last parts []) && negb (Nat.eqb lo 0)); [discriminate|].
+    destruct (Nat.leb_spec 8 (hi + lo)) as [Hs|Hs]; [discriminate|].
+    destruct (parse_hextets (firstn hi parts)) as [vh|] eqn:Eh; [|discriminate].
+    destruct (parse_hextets (skipn (length parts - lo) parts)) as [vl|] eqn:El; [|discriminate].
+    intro H.
+    assert (Hx : x = compose (N.shiftl (compose 0 vh) (16 * N.of_nat (8 - (hi + lo)))) vl) by congruence.
+    clear H. subst x. apply parse_hextets_spec in Eh, El.
+    pose proof (Forall2_len _ _ _ Eh) as Lh. pose proof (Forall2_len _ _ _ El) as Ll.
+    pose proof (firstn_le_length hi parts) as Lh'. rewrite skipn_length in Ll.
+    clearbody hi lo.
+    assert (Hb1 : compose 0 vh < P16 (0 + length vh))
+      by (apply compose_bound; [apply P16_pos|eapply hextets_bound; eassumption]).
+    rewrite N.shiftl_mul_pow2.
+    replace (2 ^ (16 * N.of_nat (8 - (hi + lo)))) with (P16 (8 - (hi + lo)))
+      by (unfold P16; change 65536 with (2 ^ 16); rewrite <- N.pow_mul_r; reflexivity).
+    assert (Hb2 : compose 0 vh * P16 (8 - (hi + lo)) < P16 (length vh + (8 - (hi + lo)))).
+    { rewrite P16_add. apply N.mul_lt_mono_pos_r; [apply P16_pos|exact Hb1]. }
+    eapply N.lt_le_trans; [apply compose_bound; [exact Hb2|eapply hextets_bound; eassumption]|].
+    rewrite <- P16_8. apply P16_mono. lia.
+Qed.
+
+Lemma parse_ip6_bound : forall s x, parse_ip6 s = Some x -> x < 2 ^ 128.
+Proof.
+  intros s x. unfold parse_ip6. destruct (is_nil s); [discriminate|].
+  destruct (Nat.ltb (length (split_on cCOLON s)) 3); [discriminate|].
+  destruct (has_char cDOT (last (split_on cCOLON s) [])).
+  - destruct (parse_ip4 (last (split_on cCOLON s) [])); [|discriminate]. apply v6_from_parts_bound.
+  - apply v6_from_parts_bound.
+Qed.
+
+Lemma parse_ip6_scoped_bound : forall s x, parse_ip6_scoped s = Some x -> x < 2 ^ 128.
+Proof.
+  intros s x. unfold parse_ip6_scoped. destruct (split_scope_id s); [|discriminate]. apply parse_ip6_bound.
+Qed.
+
+Lemma parse_addr_bound : forall s f x, parse_addr s = Some (f, x) -> x < 2 ^ width f.
+Proof.
+  intros s f x. unfold parse_addr. destruct (parse_ip4 s) as [y|] eqn:E4.
+  - intro H; inversion H; subst. eapply parse_ip4_bound; eassumption.
+  - destruct (has_char cSLASH s); [discriminate|].
+    destruct (parse_ip6_scoped s) as [y|] eqn:E6; [|discriminate].
+    intro H; inversion H; subst. eapply parse_ip6_scoped_bound; eassumption.
+Qed.
+
+Lemma parse_net6_ok : forall s net n, parse_net6 s = NetOk net n -> n <= 128 /\ net < 2 ^ 128.
+Proof.
+  intros s net n. unfold parse_net6.
+  destruct (split_on cSLASH s) as [|a [|m [|? ?]]]; try discriminate.
+  - destruct (parse_ip6_scoped a) as [x|] eqn:E; [|discriminate]. intro H; inversion H; subst.
+    split; [lia|eapply parse_ip6_scoped_bound; eassumption].
+  - destruct (prefix_from_prefix_string 128 m) as [k|] eqn:Em; [|discriminate].
+    destruct (parse_ip6_scoped a) as [x|] eqn:E; [|discriminate]. intro H; inversion H; subst.
+    split; [eapply prefix_string_ok; eassumption|eapply parse_ip6_scoped_bound; eassumption].
+Qed.
+
+Lemma parse_network_ok : forall s f net n, parse_network s = Some (f, net, n) ->
+  n <= width f /\ net < 2 ^ width f.
+Proof.
+  intros s f net n. unfold parse_network.
+  destruct (parse_net s) as [x k|] eqn:E4.
+  - intro H; inversion H; subst. eapply parse_net_ok; eassumption.
+  - destruct (parse_net6 s) as [x k|] eqn:E6; [|discriminate].
+    intro H; inversion H; subst. eapply parse_net6_ok; eassumption.
+Qed.
+
+(* ================================================================ ip_match = block membership *)
+Theorem ip_iff_w : forall a b f x g net n,
+  parse_addr a = Some (f, x) -> parse_network b = Some (g, net, n) ->
+  ip_match a b = Ok (fam_eqb f g && in_block_w (width g) x net n).
+Proof.
+  intros a b f x g net n Ha Hb. unfold ip_match. rewrite Ha, Hb.
+  destruct (parse_network_ok _ _ _ _ Hb) as [Hn Hnet]. pose proof (parse_addr_bound _ _ _ Ha) as Hx.
+  destruct f, g; simpl fam_eqb; cbn [negb andb]; try reflexivity;
+    rewrite mask_eq_iff_block_w by assumption; reflexivity.
+Qed.
+
+Lemma parse_addr_v4 : forall a x, parse_ip4 a = Some x -> parse_addr a = Some (V4, x).
+Proof. intros a x H. unfold parse_addr. rewrite H. reflexivity. Qed.
+
+Lemma parse_network_v4 : forall b net n, parse_net b = NetOk net n -> parse_network b = Some (V4, net, n).
+Proof. intros b net n H. unfold parse_network. rewrite H. reflexivity. Qed.
+
 Theorem ip_iff : forall a b x net n,
-  has_colon a = false -> has_colon b = false ->
   parse_ip4 a = Some x -> parse_net b = NetOk net n ->
   ip_match a b = Ok (in_block x net n).
 Proof.
-  intros a b x net n Ha Hb Hx Hnet. unfold ip_match. rewrite Ha, Hb, Hx, Hnet. simpl.
-  destruct (parse_net_ok _ _ _ Hnet) as [Hn Hlt].
-  rewrite mask_eq_iff_block; [reflexivity|assumption|eapply parse_ip4_bound; eassumption|assumption].
+  intros a b x net n Hx Hnet.
+  rewrite (ip_iff_w _ _ _ _ _ _ _ (parse_addr_v4 _ _ Hx) (parse_network_v4 _ _ _ Hnet)). reflexivity.
+Qed.
+
+Theorem ip_cross_family : forall a b f x g net n,
+  parse_addr a = Some (f, x) -> parse_network b = Some (g, net, n) -> f <> g -> ip_match a b = Ok false.
+Proof.
+  intros a b f x g net n Ha Hb Hne. rewrite (ip_iff_w _ _ _ _ _ _ _ Ha Hb).
+  destruct f, g; try reflexivity; congruence.
 Qed.
 
 Theorem ip_doc_spec : forall a b, ip_doc a b = true -> ip_match a b = Ok (ip_spec a b).
 Proof.
-  intros a b H. unfold ip_doc in H.
-  apply andb_true_iff in H. destruct H as [H H3]. apply andb_true_iff in H. destruct H as [H1 H2].
-  apply negb_true_iff in H1, H2. unfold ip_spec.
-  destruct (parse_ip4 a) as [x|] eqn:Ex; [|discriminate].
-  destruct (parse_net b) as [net n| |] eqn:En; try discriminate.
-  eapply ip_iff; eassumption.
+  intros a b H. unfold ip_doc in H. apply andb_true_iff in H. destruct H as [_ H]. unfold ip_spec.
+  destruct (parse_addr a) as [[f x]|] eqn:Ea; [|discriminate].
+  destruct (parse_network b) as [[[g net] n]|] eqn:Eb; [|discriminate].
+  eapply ip_iff_w; eassumption.
 Qed.
 
 (* an argument that is not a network never matches; an address that is not an address raises *)
-Theorem ip_bad_network : forall a b x,
-  has_colon a = false -> has_colon b = false -> parse_ip4 a = Some x -> parse_net b = NetBad ->
-  ip_match a b = Ok false.
-Proof. intros a b x Ha Hb Hx Hn. unfold ip_match. rewrite Ha, Hb, Hx, Hn. reflexivity. Qed.
+Theorem ip_not_network : forall a b f x,
+  parse_addr a = Some (f, x) -> parse_network b = None -> ip_match a b = Ok false.
+Proof. intros a b f x Ha Hb. unfold ip_match. rewrite Ha, Hb. reflexivity. Qed.
 
-Theorem ip_bad_address : forall a b,
-  has_colon a = false -> has_colon b = false -> parse_ip4 a = None -> ip_match a b = Err EValue.
-Proof. intros a b Ha Hb Hx. unfold ip_match. rewrite Ha, Hb, Hx. reflexivity. Qed.
+Theorem ip_bad_network : forall a b x,
+  parse_ip4 a = Some x -> parse_net b = NetBad -> ip_match a b = Ok false.
+Proof.
+  intros a b x Hx Hn. unfold ip_match. rewrite (parse_addr_v4 _ _ Hx). unfold parse_network. rewrite Hn.
+  destruct (parse_net6 b); reflexivity.
+Qed.
+
+Theorem ip_bad_address : forall a b, parse_addr a = None -> ip_match a b = Err EValue.
+Proof. intros a b Hx. unfold ip_match. rewrite Hx. reflexivity. Qed.
+
+(* the answer depends on the texts only through the integers they denote *)
+Theorem ip_match_ext : forall a a' b b',
+  parse_addr a = parse_addr a' -> parse_network b = parse_network b' -> ip_match a b = ip_match a' b'.
+Proof. intros a a' b b' Ha Hb. unfold ip_match. rewrite Ha, Hb. reflexivity. Qed.
 
 (* block membership, spelled out: same top n bits *)
 Lemma in_block_full : forall x net, in_block x net 32 = (x =? net).
-Proof. intros. unfold in_block. change (2 ^ (32 - 32)) with 1. rewrite !N.div_1_r. reflexivity. Qed.
+Proof. intros. unfold in_block, in_block_w. change (2 ^ (32 - 32)) with 1. rewrite !N.div_1_r. reflexivity. Qed.
 
 Lemma in_block_zero : forall x net, x < 2 ^ 32 -> net < 2 ^ 32 -> in_block x net 0 = true.
 Proof.
-  intros x net Hx Hn. unfold in_block. change (32 - 0) with 32.
+  intros x net Hx Hn. unfold in_block, in_block_w. change (32 - 0) with 32.
   rewrite !N.div_small by assumption. reflexivity.
+Qed.
+
+Lemma in_block_w_full : forall W x net, in_block_w W x net W = (x =? net).
+Proof. intros. unfold in_block_w. rewrite N.sub_diag. change (2 ^ 0) with 1. rewrite !N.div_1_r. reflexivity. Qed.
+
+(* ================================================================ IPv6 text: '::' anywhere *)
+Lemma mid_empties_nonempty : forall B i, Forall (fun p => is_nil p = false) B -> mid_empties i B = [].
+Proof.
+  induction B as [|b B IH]; intros i H; [reflexivity|].
+  inversion H as [|? ? Hb HB]; subst. cbn [mid_empties]. destruct B as [|b' B']; [reflexivity|].
+  rewrite Hb. cbn [app]. apply IH. exact HB.
+Qed.
+
+Lemma mid_empties_app : forall A i B, Forall (fun p => is_nil p = false) A -> B <> [] ->
+  mid_empties i (A ++ [] :: B) = (i + length A)%nat :: mid_empties (S (i + length A)) B.
+Proof.
+  induction A as [|a A IH]; intros i B HA HB.
+  - destruct B as [|b B]; [congruence|]. cbn [app mid_empties is_nil length]. rewrite Nat.add_0_r. reflexivity.
+  - inversion HA as [|? ? Ha HA']; subst. cbn [app mid_empties length].
+    destruct (A ++ [] :: B) as [|z Z] eqn:EZ; [destruct A; discriminate|].
+    rewrite Ha. cbn [app]. rewrite <- EZ, (IH (S i) B HA' HB).
+    rewrite Nat.add_succ_r. reflexivity.
+Qed.
+
+Lemma last_app_cons : forall {A} (l : list A) b l' d, last (l ++ b :: l') d = last (b :: l') d.
+Proof.
+  intros A l b l' d. induction l as [|a l IH]; [reflexivity|].
+  cbn [app]. rewrite <- IH. cbn [last]. destruct (l ++ b :: l') eqn:E; [destruct l; discriminate|reflexivity].
+Qed.
+
+Lemma last_nonempty : forall B, B <> [] -> Forall (fun p => is_nil p = false) B -> is_nil (last B ([] : str)) = false.
+Proof.
+  induction B as [|b B IH]; intros Hne H; [congruence|].
+  inversion H as [|? ? Hb HB]; subst. destruct B as [|b' B']; [exact Hb|].
+  change (last (b :: b' :: B') []) with (last (b' :: B') ([] : str)). apply IH; [discriminate|exact HB].
+Qed.
+
+Definition blank_if_nil (l : list str) : list str := if is_nil l then [[]] else l.
+
+Ltac know_last b tac :=
+  match goal with
+  | |- context [is_nil (last ?l ?d)] =>
+    let H := fresh "Hl" in assert (H : is_nil (last l d) = b) by tac; rewrite !H
+  end.
+
+(* the '::' branch of v6_from_parts, given what its intermediate quantities are *)
+Lemma v6_dc_gen : forall (parts : list str) k hi lo vh vl,
+  (length parts <= 9)%nat -> mid_empties 1 (tl parts) = [k] ->
+  (if is_nil (hd [] parts) then (k - 1)%nat else k) = hi ->
+  (if is_nil (last parts []) then (length parts - k - 1 - 1)%nat else (length parts - k - 1)%nat) = lo ->
+  (is_nil (hd [] parts) = true -> hi = 0%nat) -> (is_nil (last parts []) = true -> lo = 0%nat) ->
+  (hi + lo < 8)%nat ->
+  parse_hextets (firstn hi parts) = Some vh -> parse_hextets (skipn (length parts - lo) parts) = Some vl ->
+  v6_from_parts parts = Some (compose (N.shiftl (compose 0 vh) (16 * N.of_nat (8 - (hi + lo)))) vl).
+Proof.
+  intros parts k hi lo vh vl Hn Hm Hhi Hlo Hh0 Hl0 Hs Hvh Hvl.
+  unfold v6_from_parts. rewrite Hm. cbv zeta. rewrite Hhi, Hlo.
+  destruct (Nat.ltb_spec 9 (length parts)) as [?|_]; [lia|].
+  assert (E1 : is_nil (hd [] parts) && negb (Nat.eqb hi 0) = false).
+  { destruct (is_nil (hd [] parts)); [|reflexivity]. rewrite Hh0 by reflexivity. reflexivity. }
+  assert (E2 : is_nil (last parts []) && negb (Nat.eqb lo 0) = false).
+  { destruct (is_nil (last parts [])); [|reflexivity]. rewrite Hl0 by reflexivity. reflexivity. }
+  rewrite E1, E2. destruct (Nat.leb_spec 8 (hi + lo)) as [?|_]; [lia|].
+  rewrite Hvh, Hvl. reflexivity.
+Qed.
+
+(* the parts-level statement: hextets pre, an empty part, hextets post *)
+Lemma v6_from_parts_dc : forall pre post vpre vpost,
+  Forall2 hextet_text pre vpre -> Forall2 hextet_text post vpost ->
+  (length pre + length post < 8)%nat ->
+  v6_from_parts (blank_if_nil pre ++ [] :: blank_if_nil post)
+  = Some (compose 0 (vpre ++ repeat 0 (8 - (length pre + length post)) ++ vpost)).
+Proof.
+  intros pre post vpre vpost Hpre Hpost Hlen.
+  pose proof (hextets_nonempty _ _ Hpre) as Npre. pose proof (hextets_nonempty _ _ Hpost) as Npost.
+  rewrite !compose_app, compose_zeros.
+  apply parse_hextets_spec in Hpre, Hpost.
+  destruct pre as [|p0 pre]; destruct post as [|q0 post]; unfold blank_if_nil; cbn [is_nil].
+  - (* "::" *)
+    simpl in Hpre, Hpost. inversion Hpre; inversion Hpost; subst. reflexivity.
+  - (* "::q0:..." *)
+    cbn [length] in Hlen.
+    match goal with |- v6_from_parts ?P = _ => assert (Hlast : is_nil (last P []) = false) end.
+    { rewrite last_app_cons. change (is_nil (last (q0 :: post) ([] : str)) = false).
+      apply last_nonempty; [discriminate|exact Npost]. }
+    apply v6_dc_gen with (k := 1%nat).
+    + cbn [length app]; lia.
+    + change (tl ([[]] ++ [] :: q0 :: post)) with (([] : list str) ++ [] :: q0 :: post).
+      rewrite mid_empties_app by (constructor || discriminate).
+      rewrite mid_empties_nonempty by exact Npost. reflexivity.
+    + reflexivity.
+    + rewrite Hlast. cbn [length app]; lia.
+    + reflexivity.
+    + rewrite Hlast. discriminate.
+    + cbn [length app]; lia.
+    + simpl in Hpre. inversion Hpre. reflexivity.
+    + match goal with |- context [skipn ?n _] => replace n with 2%nat by (cbn [length app]; lia) end.
+      exact Hpost.
+  - (* "p0:...::" *)
+    cbn [length] in Hlen. inversion Npre as [|? ? Np0 Npre']; subst.
+    match goal with |- v6_from_parts ?P = _ => assert (Hlast : is_nil (last P []) = true) end.
+    { rewrite last_app_cons. reflexivity. }
+    match goal with |- v6_from_parts ?P = _ => assert (Hn : length P = S (S (S (length pre)))) end.
+    { rewrite app_length. cbn [length app]; lia. }
+    apply v6_dc_gen with (k := S (length pre)).
+    + lia.
+    + change (tl ((p0 :: pre) ++ [] :: [[]])) with (pre ++ [] :: [[]]).
+      rewrite mid_empties_app by (exact Npre' || discriminate). reflexivity.
+    + cbn [app hd]. rewrite Np0. reflexivity.
+    + rewrite Hlast, Hn. cbn [length app]; lia.
+    + cbn [app hd]. rewrite Np0. discriminate.
+    + reflexivity.
+    + cbn [length app]; lia.
+    + replace (length (p0 :: pre)) with (length (p0 :: pre) + 0)%nat by lia.
+      rewrite firstn_app_2. cbn [firstn]. rewrite app_nil_r. exact Hpre.
+    + cbn [length]. rewrite Nat.sub_0_r, skipn_all. simpl in Hpost. inversion Hpost. reflexivity.
+  - (* "p0:...::q0:..." *)
+    cbn [length] in Hlen. inversion Npre as [|? ? Np0 Npre']; subst.
+    match goal with |- v6_from_parts ?P = _ => assert (Hlast : is_nil (last P []) = false) end.
+    { rewrite last_app_cons. change (is_nil (last (q0 :: post) ([] : str)) = false).
+      apply last_nonempty; [discriminate|exact Npost]. }
+    match goal with |- v6_from_parts ?P = _ =>
+      assert (Hn : length P = (S (length pre) + S (S (length post)))%nat) end.
+    { rewrite app_length. cbn [length app]; lia. }
+    apply v6_dc_gen with (k := S (length pre)).
+    + lia.
+    + change (tl ((p0 :: pre) ++ [] :: q0 :: post)) with (pre ++ [] :: q0 :: post).
+      rewrite mid_empties_app by (exact Npre' || discriminate).
+      rewrite mid_empties_nonempty by exact Npost. reflexivity.
+    + cbn [app hd]. rewrite Np0. reflexivity.
+    + rewrite Hlast, Hn. cbn [length app]; lia.
+    + cbn [app hd]. rewrite Np0. discriminate.
+    + rewrite Hlast. discriminate.
+    + cbn [length app]; lia.
+    + replace (length (p0 :: pre)) with (length (p0 :: pre) + 0)%nat by lia.
+      rewrite firstn_app_2. cbn [firstn]. rewrite app_nil_r. exact Hpre.
+    + rewrite Hn. replace (S (length pre) + S (S (length post)) - length (q0 :: post))%nat
+        with (length (p0 :: pre) + 1)%nat by (cbn [length app]; lia).
+      rewrite skipn_app, skipn_all2 by lia.
+      replace (length (p0 :: pre) + 1 - length (p0 :: pre))%nat with 1%nat by lia.
+      exact Hpost.
+Qed.
+
+Lemma v6_from_parts_plain : forall gs vgs, Forall2 hextet_text gs vgs -> length gs = 8%nat ->
+  v6_from_parts gs = Some (compose 0 vgs).
+Proof.
+  intros gs vgs H Hlen. pose proof (hextets_nonempty _ _ H) as Ngs.
+  unfold v6_from_parts. rewrite Hlen. cbn [Nat.ltb Nat.leb Nat.eqb negb].
+  destruct gs as [|g0 gs']; [discriminate|].
+  inversion Ngs as [|? ? Ng0 Ngs']; subst. cbn [tl hd].
+  rewrite mid_empties_nonempty by exact Ngs'. rewrite Ng0.
+  know_last false ltac:(apply last_nonempty; [discriminate|exact Ngs]).
+  apply parse_hextets_spec in H. rewrite H. reflexivity.
+Qed.
+
+(* ================================================================ IPv6 text: from strings *)
+Lemma has_char_app : forall c s t, has_char c (s ++ t) = has_char c s || has_char c t.
+Proof. intros. unfold has_char. apply existsb_app. Qed.
+
+Lemma has_char_join : forall c sep ps, (sep =? c) = false -> Forall (fun p => has_char c p = false) ps ->
+  has_char c (join sep ps) = false.
+Proof.
+  intros c sep ps Hne H. induction H as [|p rest Hp Hrest IH]; [reflexivity|].
+  cbn [join]. destruct rest as [|q rest']; [exact Hp|].
+  rewrite has_char_app, Hp. cbn [has_char existsb orb]. rewrite Hne. exact IH.
+Qed.
+
+Lemma join_split_len : forall sep ps, (2 <= length ps)%nat -> Forall (fun p => has_char sep p = false) ps ->
+  is_nil (join sep ps) = false.
+Proof.
+  intros sep ps Hl H. destruct (join sep ps) as [|c r] eqn:E; [|reflexivity].
+  assert (Hs : split_on sep (join sep ps) = ps) by (apply split_join; [destruct ps; [simpl in Hl; lia|discriminate]|exact H]).
+  rewrite E in Hs. simpl in Hs. subst ps. simpl in Hl. lia.
+Qed.
+
+Definition v6_char_ok (c : N) : bool := is_hex c || (c =? cDOT) || (c =? cCOLON).
+
+Lemma hextet_texts_no_char : forall ps vs c, Forall2 hextet_text ps vs -> is_hex c = false ->
+  Forall (fun p => has_char c p = false) ps.
+Proof.
+  intros ps vs c H Hc. induction H; constructor; [eapply parse_hextet_no_char; eassumption|assumption].
+Qed.
+
+Lemma tail_text_no_char : forall tl vtl c, tail_text tl vtl -> digit_or_dot c = false ->
+  Forall (fun p => has_char c p = false) tl.
+Proof.
+  intros tl vtl c H Hc. destruct H; constructor; [eapply parse_ip4_no_char; eassumption|constructor].
+Qed.
+
+Lemma blank_if_nil_no_char : forall c ps, Forall (fun p => has_char c p = false) ps ->
+  Forall (fun p => has_char c p = false) (blank_if_nil ps).
+Proof. intros c ps H. unfold blank_if_nil. destruct ps; [repeat constructor|exact H]. Qed.
+
+Lemma blank_if_nil_len : forall ps : list str, (1 <= length (blank_if_nil ps))%nat.
+Proof. intro ps. destruct ps; simpl; lia. Qed.
+
+Lemma text6_dc_eq : forall pre post, text6_dc pre post = join cCOLON (blank_if_nil pre ++ [] :: blank_if_nil post).
+Proof. reflexivity. Qed.
+
+Lemma tail_groups : forall q w, parse_ip4 q = Some w ->
+  hextet_text (hex_of (w / 65536 mod 65536)) (w / 65536) /\ hextet_text (hex_of (w mod 65536)) (w mod 65536).
+Proof.
+  intros q w H. apply parse_ip4_bound in H. change (2 ^ 32) with (65536 * 65536) in H.
+  assert (Hq : w / 65536 < 65536) by (apply N.div_lt_upper_bound; [discriminate|exact H]).
+  rewrite (N.mod_small (w / 65536)) by exact Hq. split; apply hex_of_text; [exact Hq|apply N.mod_lt; discriminate].
+Qed.
+
+(* parse_ip6 of a text whose ':'-separated parts are known *)
+Lemma parse_ip6_join : forall parts tl vtl, Forall (fun p => has_char cCOLON p = false) (parts ++ tl) ->
+  (3 <= length (parts ++ tl))%nat -> tail_text tl vtl ->
+  (tl = [] -> has_char cDOT (last parts []) = false) ->
+  exists t2, Forall2 hextet_text t2 vtl /\
+             parse_ip6 (join cCOLON (parts ++ tl)) = v6_from_parts (parts ++ t2).
+Proof.
+  intros parts tl vtl Hc Hl Ht Hd. unfold parse_ip6.
+  rewrite join_split_len by (exact Hc || lia). rewrite split_join by (exact Hc || (destruct (parts ++ tl); [simpl in Hl; lia|discriminate])).
+  destruct (Nat.ltb_spec (length (parts ++ tl)) 3) as [?|_]; [lia|].
+  destruct Ht as [|q w Hq].
+  - exists []. split; [constructor|]. rewrite app_nil_r in *. rewrite (Hd eq_refl). reflexivity.
+  - destruct (tail_groups _ _ Hq) as [G1 G2].
+    exists [hex_of (w / 65536 mod 65536); hex_of (w mod 65536)]. split; [repeat constructor; assumption|].
+    rewrite last_last, (parse_ip4_has_dot _ _ Hq), Hq, removelast_last. reflexivity.
+Qed.
+
+(* texts with '::' : hextets pre, '::', hextets post, optional dotted quad *)
+Theorem ip6_text_dc : forall pre post tl vpre vpost vtl,
+  Forall2 hextet_text pre vpre -> Forall2 hextet_text post vpost -> tail_text tl vtl ->
+  (length pre + length post + length vtl < 8)%nat ->
+  parse_ip6 (text6_dc pre (post ++ tl))
+  = Some (compose 0 (vpre ++ repeat 0 (8 - (length pre + length post + length vtl)) ++ vpost ++ vtl)).
+Proof.
+  intros pre post tl vpre vpost vtl Hpre Hpost Ht Hlen.
+  assert (Hhex : is_hex cCOLON = false) by reflexivity.
+  assert (Hdd : digit_or_dot cCOLON = false) by reflexivity.
+  pose proof (hextet_texts_no_char _ _ cCOLON Hpre Hhex) as Cpre.
+  pose proof (hextet_texts_no_char _ _ cCOLON Hpost Hhex) as Cpost.
+  pose proof (tail_text_no_char _ _ cCOLON Ht Hdd) as Ctl.
+  rewrite text6_dc_eq.
+  assert (Hshape : blank_if_nil pre ++ [] :: blank_if_nil (post ++ tl)
+                   = (blank_if_nil pre ++ [] :: blank_if_nil post) ++ tl
+                     \/ (post = [] /\ tl <> [])).
+  { destruct post as [|q0 post]; [destruct tl; [left; cbn [app]; rewrite app_nil_r; reflexivity|right; split; [reflexivity|discriminate]]|].
+    left. unfold blank_if_nil at 2 3. cbn [app is_nil]. rewrite <- app_assoc. reflexivity. }
+  destruct Hshape as [Hshape|[-> Hne]].
+  - rewrite Hshape.
+    assert (Hc : Forall (fun p => has_char cCOLON p = false) ((blank_if_nil pre ++ [] :: blank_if_nil post) ++ tl)).
+    { apply Forall_app; split; [|exact Ctl]. apply Forall_app; split; [apply blank_if_nil_no_char; exact Cpre|].
+      constructor; [reflexivity|apply blank_if_nil_no_char; exact Cpost]. }
+    assert (Hl3 : (3 <= length ((blank_if_nil pre ++ [] :: blank_if_nil post) ++ tl))%nat).
+    { rewrite !app_length. cbn [length]. pose proof (blank_if_nil_len pre). pose proof (blank_if_nil_len post). lia. }
+    destruct (parse_ip6_join _ _ _ Hc Hl3 Ht) as [t2 [Ht2 ->]].
+    { intros _. rewrite last_app_cons. destruct post as [|q0 post]; [reflexivity|].
+      unfold blank_if_nil. cbn [is_nil].
+      change (last ([] :: q0 :: post) []) with (last (q0 :: post) ([] : str)).
+      assert (Hdot : Forall (fun p => has_char cDOT p = false) (q0 :: post))
+        by (eapply hextet_texts_no_char; [exact Hpost|reflexivity]).
+      clear - Hdot. induction post as [|q1 post IH] in q0, Hdot |- *.
+      - inversion Hdot; assumption.
+      - inversion Hdot; subst. change (last (q0 :: q1 :: post) []) with (last (q1 :: post) ([] : str)). apply IH. assumption. }
+    (* the tail groups join the post groups *)
+    destruct post as [|q0 post].
+    + (* post empty and (by Hshape) tl empty *)
+      destruct tl as [|? ?]; [|unfold blank_if_nil in Hshape; cbn [app is_nil] in Hshape;
+                                apply (f_equal (@length str)) in Hshape; rewrite !app_length in Hshape; simpl in Hshape; lia].
+      inversion Ht; subst. inversion Ht2; subst. rewrite app_nil_r.
+      inversion Hpost; subst. rewrite (v6_from_parts_dc pre [] vpre [] Hpre (Forall2_nil _)) by (simpl in *; lia).
+      simpl. rewrite !Nat.add_0_r. reflexivity.
+    + replace ((blank_if_nil pre ++ [] :: blank_if_nil (q0 :: post)) ++ t2)
+        with (blank_if_nil pre ++ [] :: blank_if_nil ((q0 :: post) ++ t2))
+        by (unfold blank_if_nil at 2 3; cbn [app is_nil]; rewrite <- app_assoc; reflexivity).
+      rewrite (v6_from_parts_dc pre ((q0 :: post) ++ t2) vpre (vpost ++ vtl) Hpre (Forall2_app Hpost Ht2)).
+      * rewrite app_length, (Forall2_len _ _ _ Ht2), Nat.add_assoc. reflexivity.
+      * rewrite app_length, (Forall2_len _ _ _ Ht2). lia.
+  - (* "pre::quad" *)
+    destruct Ht as [|q w Hq]; [congruence|]. inversion Hpost; subst. cbn [app] in *.
+    unfold blank_if_nil at 2. cbn [is_nil].
+    replace (blank_if_nil pre ++ [[]; q]) with ((blank_if_nil pre ++ [[]]) ++ [q]) by (rewrite <- app_assoc; reflexivity).
+    assert (Hc : Forall (fun p => has_char cCOLON p = false) ((blank_if_nil pre ++ [[]]) ++ [q])).
+    { apply Forall_app; split; [|exact Ctl]. apply Forall_app; split; [apply blank_if_nil_no_char; exact Cpre|repeat constructor]. }
+    assert (Hl3 : (3 <= length ((blank_if_nil pre ++ [[]]) ++ [q]))%nat).
+    { rewrite !app_length. cbn [length]. pose proof (blank_if_nil_len pre). lia. }
+    destruct (parse_ip6_join _ _ _ Hc Hl3 (TT_quad q w Hq)) as [t2 [Ht2 ->]]; [discriminate|].
+    replace ((blank_if_nil pre ++ [[]]) ++ t2) with (blank_if_nil pre ++ [] :: blank_if_nil t2).
+    + rewrite (v6_from_parts_dc pre t2 vpre _ Hpre Ht2).
+      * rewrite (Forall2_len _ _ _ Ht2). cbn [length app]. rewrite !Nat.add_0_r. reflexivity.
+      * rewrite (Forall2_len _ _ _ Ht2). cbn [length] in *. lia.
+    + inversion Ht2 as [|? ? ? ? ? Hrest]; subst. unfold blank_if_nil at 2. cbn [is_nil].
+      rewrite <- app_assoc. reflexivity.
+Qed.
+
+(* texts without '::' : eight groups, the last two possibly as a dotted quad *)
+Theorem ip6_text_plain : forall gs tl vgs vtl,
+  Forall2 hextet_text gs vgs -> tail_text tl vtl -> (length gs + length vtl = 8)%nat ->
+  parse_ip6 (join cCOLON (gs ++ tl)) = Some (compose 0 (vgs ++ vtl)).
+Proof.
+  intros gs tl vgs vtl Hgs Ht Hlen.
+  assert (Hc : Forall (fun p => has_char cCOLON p = false) (gs ++ tl)).
+  { apply Forall_app; split; [eapply hextet_texts_no_char; [exact Hgs|reflexivity]|eapply tail_text_no_char; [exact Ht|reflexivity]]. }
+  assert (Hl3 : (3 <= length (gs ++ tl))%nat).
+  { rewrite app_length. destruct Ht; cbn [length] in *; lia. }
+  destruct (parse_ip6_join _ _ _ Hc Hl3 Ht) as [t2 [Ht2 ->]].
+  - intros ->. cbn [length] in Hlen. destruct gs as [|g0 gs']; [reflexivity|].
+    assert (Hdot : Forall (fun p => has_char cDOT p = false) (g0 :: gs'))
+      by (eapply hextet_texts_no_char; [exact Hgs|reflexivity]).
+    clear - Hdot. induction gs' as [|g1 gs' IH] in g0, Hdot |- *.
+    + inversion Hdot; assumption.
+    + inversion Hdot; subst. change (last (g0 :: g1 :: gs') []) with (last (g1 :: gs') ([] : str)). apply IH. assumption.
+  - apply v6_from_parts_plain; [apply Forall2_app; assumption|].
+    rewrite app_length, (Forall2_len _ _ _ Ht2). exact Hlen.
+Qed.
+
+(* ================================================================ renderings of an integer read back *)
+Lemma groups_rev_len : forall k n, length (groups_rev k n) = k.
+Proof. induction k; intro n; simpl; congruence. Qed.
+
+Lemma groups_rev_bound : forall k n, Forall (fun v => v < 65536) (groups_rev k n).
+Proof. induction k; intro n; simpl; constructor; [apply N.mod_lt; discriminate|apply IHk]. Qed.
+
+Lemma groups_rev_compose : forall k n, compose 0 (rev (groups_rev k n)) = n mod P16 k.
+Proof.
+  induction k as [|k IH]; intro n.
+  - simpl. change (P16 0) with 1. rewrite N.mod_1_r. reflexivity.
+  - cbn [groups_rev rev]. rewrite compose_app, IH. unfold compose. cbn [fold_left].
+    rewrite P16_S, (N.mul_comm (P16 k)), N.mod_mul_r; [lia|discriminate|].
+    pose proof (P16_pos k). lia.
+Qed.
+
+Lemma groups_of_len : forall n, length (groups_of n) = 8%nat.
+Proof. intro n. unfold groups_of. rewrite rev_length. apply groups_rev_len. Qed.
+
+Lemma groups_of_bound : forall n, Forall (fun v => v < 65536) (groups_of n).
+Proof. intro n. unfold groups_of. apply Forall_rev, groups_rev_bound. Qed.
+
+Lemma groups_of_compose : forall n, n < 2 ^ 128 -> compose 0 (groups_of n) = n.
+Proof. intros n Hn. unfold groups_of. rewrite groups_rev_compose, P16_8. apply N.mod_small. exact Hn. Qed.
+
+Lemma map_hextet_text : forall (f : N -> str) l, (forall v, v < 65536 -> parse_hextet (f v) = Some v) ->
+  Forall (fun v => v < 65536) l -> Forall2 hextet_text (map f l) l.
+Proof. intros f l Hf H. induction H; simpl; constructor; [apply Hf; assumption|assumption]. Qed.
+
+Theorem ip6_render_full : forall n, n < 2 ^ 128 -> parse_ip6 (render6_full n) = Some n.
+Proof.
+  intros n Hn. unfold render6_full.
+  rewrite <- (app_nil_r (map hex4 (groups_of n))).
+  rewrite (ip6_text_plain _ [] (groups_of n) [] (map_hextet_text hex4 _ hex4_text (groups_of_bound n)) TT_none).
+  - rewrite app_nil_r, groups_of_compose by exact Hn. reflexivity.
+  - rewrite map_length, groups_of_len. reflexivity.
+Qed.
+
+Lemma all_zero_repeat : forall l, forallb (fun v => v =? 0) l = true -> l = repeat 0 (length l).
+Proof.
+  induction l as [|v l IH]; intro H; [reflexivity|]. simpl in H. apply andb_true_iff in H. destruct H as [Hv Hl].
+  apply N.eqb_eq in Hv. subst v. simpl. f_equal. apply IH. exact Hl.
+Qed.
+
+Lemma skipn_skipn' : forall {A} a b (l : list A), skipn a (skipn b l) = skipn (b + a) l.
+Proof.
+  intros A a b. induction b as [|b IH]; intro l; [reflexivity|].
+  destruct l as [|x l]; [rewrite !skipn_nil; reflexivity|]. cbn [Nat.add skipn]. apply IH.
+Qed.
+
+Lemma run_candidates_len : forall s l, In (s, l) run_candidates -> (2 <= l)%nat.
+Proof.
+  intros s l H.
+  assert (Hall : forallb (fun sl => Nat.leb 2 (snd sl)) run_candidates = true) by (vm_compute; reflexivity).
+  rewrite forallb_forall in Hall. specialize (Hall _ H). apply Nat.leb_le in Hall. exact Hall.
+Qed.
+
+Lemma best_run_spec : forall g s l, best_run g = Some (s, l) ->
+  (2 <= l)%nat /\ (s + l <= length g)%nat /\ g = firstn s g ++ repeat 0 l ++ skipn (s + l) g.
+Proof.
+  intros g s l H. unfold best_run in H. apply find_some in H. destruct H as [Hin Hz].
+  cbn [fst snd] in Hz. unfold zero_run in Hz. apply andb_true_iff in Hz. destruct Hz as [Hlen Hz].
+  apply Nat.eqb_eq in Hlen. apply all_zero_repeat in Hz. rewrite Hlen in Hz.
+  pose proof (run_candidates_len _ _ Hin) as H2.
+  split; [exact H2|]. split.
+  - rewrite firstn_length, skipn_length in Hlen. lia.
+  - rewrite <- Hz, <- skipn_skipn', !firstn_skipn. reflexivity.
+Qed.
+
+Theorem ip6_render_compressed : forall n, n < 2 ^ 128 -> parse_ip6 (render6_compressed n) = Some n.
+Proof.
+  intros n Hn. unfold render6_compressed.
+  pose proof (groups_of_len n) as Hlen. pose proof (groups_of_bound n) as Hb.
+  destruct (best_run (groups_of n)) as [[s l]|] eqn:Eb.
+  - apply best_run_spec in Eb. destruct Eb as [Hl [Hsl Hg]]. rewrite Hlen in Hsl.
+    assert (Hb1 : Forall (fun v => v < 65536) (firstn s (groups_of n))).
+    { rewrite <- (firstn_skipn s (groups_of n)) in Hb. apply Forall_app in Hb. tauto. }
+    assert (Hb2 : Forall (fun v => v < 65536) (skipn (s + l) (groups_of n))).
+    { rewrite <- (firstn_skipn (s + l) (groups_of n)) in Hb. apply Forall_app in Hb. tauto. }
+    rewrite <- (app_nil_r (map hex_of (skipn (s + l) (groups_of n)))).
+    rewrite (ip6_text_dc _ _ [] _ _ [] (map_hextet_text hex_of _ hex_of_text Hb1)
+               (map_hextet_text hex_of _ hex_of_text Hb2) TT_none).
+    + rewrite !map_length, firstn_length, skipn_length, Hlen. cbn [length].
+      replace (8 - (Nat.min s 8 + (8 - (s + l)) + 0))%nat with l by lia.
+      rewrite app_nil_r, <- Hg, groups_of_compose by exact Hn. reflexivity.
+    + rewrite !map_length, firstn_length, skipn_length, Hlen. cbn [length]. lia.
+  - rewrite <- (app_nil_r (map hex_of (groups_of n))).
+    rewrite (ip6_text_plain _ [] (groups_of n) [] (map_hextet_text hex_of _ hex_of_text Hb) TT_none).
+    + rewrite app_nil_r, groups_of_compose by exact Hn. reflexivity.
+    + rewrite map_length, Hlen. reflexivity.
+Qed.
+
+(* ================================================================ from parse_ip6 to ip_address *)
+Lemma partition_on_nosep : forall sep s, has_char sep s = false -> partition_on sep s = (s, None).
+Proof.
+  intros sep s. unfold has_char. induction s as [|c r IH]; simpl; [reflexivity|].
+  intro H. apply orb_false_iff in H. destruct H as [Hc Hr]. rewrite Hc, (IH Hr). reflexivity.
+Qed.
+
+Lemma parse_ip6_has_colon : forall s x, parse_ip6 s = Some x -> has_char cCOLON s = true.
+Proof.
+  intros s x H. destruct (has_char cCOLON s) eqn:E; [reflexivity|].
+  unfold parse_ip6 in H. rewrite (split_on_nosep _ _ E) in H. destruct (is_nil s); discriminate.
+Qed.
+
+Lemma parse_addr_v6 : forall s x, parse_ip6 s = Some x -> has_char cSLASH s = false -> has_char cPCT s = false ->
+  parse_addr s = Some (V6, x).
+Proof.
+  intros s x H Hs Hp. unfold parse_addr.
+  destruct (parse_ip4 s) as [y|] eqn:E4.
+  - pose proof (parse_ip4_no_char _ _ cCOLON E4 eq_refl) as Hc.
+    rewrite (parse_ip6_has_colon _ _ H) in Hc. discriminate.
+  - rewrite Hs. unfold parse_ip6_scoped, split_scope_id. rewrite (partition_on_nosep _ _ Hp), H. reflexivity.
+Qed.
+
+Lemma parse_network_v6 : forall s x, parse_ip6 s = Some x -> has_char cSLASH s = false -> has_char cPCT s = false ->
+  parse_network s = Some (V6, x, 128).
+Proof.
+  intros s x H Hs Hp. unfold parse_network, parse_net, parse_net6. rewrite (split_on_nosep _ _ Hs).
+  destruct (parse_ip4 s) as [y|] eqn:E4.
+  - pose proof (parse_ip4_no_char _ _ cCOLON E4 eq_refl) as Hc.
+    rewrite (parse_ip6_has_colon _ _ H) in Hc. discriminate.
+  - unfold parse_ip6_scoped, split_scope_id. rewrite (partition_on_nosep _ _ Hp), H. reflexivity.
+Qed.
+
+(* a documented IPv6 text contains neither '/' nor '%' *)
+Lemma text6_parts_no_char : forall c pre post tl vpre vpost vtl,
+  Forall2 hextet_text pre vpre -> Forall2 hextet_text post vpost -> tail_text tl vtl ->
+  is_hex c = false -> digit_or_dot c = false -> (cCOLON =? c) = false ->
+  has_char c (text6_dc pre (post ++ tl)) = false /\ has_char c (join cCOLON (pre ++ tl)) = false.
+Proof.
+  intros c pre post tl vpre vpost vtl Hpre Hpost Ht Hh Hd Hc.
+  pose proof (hextet_texts_no_char _ _ c Hpre Hh) as Cpre.
+  pose proof (hextet_texts_no_char _ _ c Hpost Hh) as Cpost.
+  pose proof (tail_text_no_char _ _ c Ht Hd) as Ctl.
+  split.
+  - rewrite text6_dc_eq. apply has_char_join; [exact Hc|].
+    apply Forall_app; split; [apply blank_if_nil_no_char; exact Cpre|].
+    constructor; [reflexivity|]. apply blank_if_nil_no_char. apply Forall_app; split; assumption.
+  - apply has_char_join; [exact Hc|]. apply Forall_app; split; assumption.
+Qed.
+
+(* ================================================================ IPv4 networks written with a dotted mask *)
+Lemma parse_prefix_mask : forall mt m n, parse_ip4 mt = Some m -> prefix_from_mask_int m = Some n ->
+  parse_prefix mt = NetOk 0 n.
+Proof.
+  intros mt m n Hm Hn. unfold parse_prefix.
+  assert (Hp : prefix_from_prefix_string 32 mt = None).
+  { unfold prefix_from_prefix_string. destruct (is_nil mt); [reflexivity|].
+    destruct (forallb is_digit mt) eqn:Ed; [|reflexivity].
+    pose proof (parse_ip4_has_dot _ _ Hm) as Hdot. unfold has_char in Hdot.
+    apply existsb_exists in Hdot. destruct Hdot as [c [Hin Hc]]. apply N.eqb_eq in Hc. subst c.
+    rewrite forallb_forall in Ed. specialize (Ed _ Hin). discriminate. }
+  rewrite Hp. unfold prefix_from_ip_string. rewrite Hm, Hn. reflexivity.
+Qed.
+
+Theorem ip4_mask_iff : forall a nt mt x net m n,
+  parse_ip4 a = Some x -> parse_ip4 nt = Some net -> parse_ip4 mt = Some m ->
+  (n <= 32 /\ m = 2 ^ 32 - 2 ^ (32 - n)) \/ (0 < n < 32 /\ m = 2 ^ (32 - n) - 1) ->
+  ip_match a (nt ++ cSLASH :: mt) = Ok (in_block x net n).
+Proof.
+  intros a nt mt x net m n Ha Hnt Hmt Hm.
+  apply ip_iff; [exact Ha|].
+  assert (Hn : prefix_from_mask_int m = Some n).
+  { destruct Hm as [[Hle ->]|[[H0 H32] ->]]; [apply mask_int_netmask; exact Hle|apply mask_int_hostmask; assumption]. }
+  unfold parse_net.
+  rewrite split_on_app by (eapply parse_ip4_no_char; [exact Hnt|reflexivity]).
+  rewrite split_on_nosep by (eapply parse_ip4_no_char; [exact Hmt|reflexivity]).
+  rewrite (parse_prefix_mask _ _ _ Hmt Hn), Hnt. reflexivity.
+Qed.
+
+(* any other dotted quad after the '/' is not a mask: the pattern is not a network and nothing matches it *)
+Theorem ip4_mask_rejected : forall a nt mt x m,
+  parse_ip4 a = Some x -> parse_ip4 mt = Some m ->
+  (forall n, n <= 32 -> m <> 2 ^ 32 - 2 ^ (32 - n) /\ m <> 2 ^ (32 - n) - 1) ->
+  ip_match a (nt ++ cSLASH :: mt) = Ok false.
+Proof.
+  intros a nt mt x m Ha Hmt Hm.
+  apply ip_bad_network with x; [exact Ha|].
+  unfold parse_net.
+  destruct (has_char cSLASH nt) eqn:Hs.
+  - (* a second '/' : three or more pieces *)
+    assert (Hlen : (3 <= length (split_on cSLASH (nt ++ cSLASH :: mt)))%nat).
+    { clear - Hs. induction nt as [|c r IH]; [discriminate|]. cbn [app split_on].
+      unfold has_char in Hs. cbn [existsb] in Hs. destruct (c =? cSLASH) eqn:Ec.
+      - cbn [length]. clear. pose proof (split_on_nonempty cSLASH (r ++ cSLASH :: mt)).
+        assert (H2 : (2 <= length (split_on cSLASH (r ++ cSLASH :: mt)))%nat).
+        { clear. induction r as [|d r IH]; cbn [app split_on].
+          - rewrite N.eqb_refl. cbn [length]. pose proof (split_on_nonempty cSLASH mt).
+            destruct (split_on cSLASH mt); [congruence|simpl; lia].
+          - destruct (d =? cSLASH); [cbn [length]; lia|].
+            destruct (split_on cSLASH (r ++ cSLASH :: mt)); [simpl in IH; lia|exact IH]. }
+        lia.
+      - simpl in Hs. specialize (IH Hs).
+        destruct (split_on cSLASH (r ++ cSLASH :: mt)); [simpl in IH; lia|exact IH]. }
+    destruct (split_on cSLASH (nt ++ cSLASH :: mt)) as [|p1 [|p2 [|p3 ?]]]; simpl in Hlen; try lia. reflexivity.
+  - rewrite split_on_app by exact Hs.
+    rewrite split_on_nosep by (eapply parse_ip4_no_char; [exact Hmt|reflexivity]).
+    destruct (parse_prefix mt) as [z k|] eqn:Ep; [|reflexivity]. exfalso.
+    unfold parse_prefix in Ep.
+    destruct (prefix_from_prefix_string 32 mt) as [k'|] eqn:E1.
+    + unfold prefix_from_prefix_string in E1. destruct (is_nil mt); [discriminate|].
+      destruct (forallb is_digit mt) eqn:Ed; [|discriminate].
+      pose proof (parse_ip4_has_dot _ _ Hmt) as Hdot. unfold has_char in Hdot.
+      apply existsb_exists in Hdot. destruct Hdot as [c [Hin Hc]]. apply N.eqb_eq in Hc. subst c.
+      rewrite forallb_forall in Ed. specialize (Ed _ Hin). discriminate.
+    + unfold prefix_from_ip_string in Ep. rewrite Hmt in Ep.
+      destruct (prefix_from_mask_int m) as [k'|] eqn:E2; [|discriminate].
+      apply mask_int_sound in E2; [|eapply parse_ip4_bound; exact Hmt].
+      destruct E2 as [Hle Hor]. destruct (Hm _ Hle) as [N1 N2]. tauto.
+Qed.
+
+(* ================================================================ the documented IPv6 texts as arguments of ip_match *)
+Theorem addr6_text_dc : forall pre post tl vpre vpost vtl,
+  Forall2 hextet_text pre vpre -> Forall2 hextet_text post vpost -> tail_text tl vtl ->
+  (length pre + length post + length vtl < 8)%nat ->
+  let x := compose 0 (vpre ++ repeat 0 (8 - (length pre + length post + length vtl)) ++ vpost ++ vtl) in
+  parse_addr (text6_dc pre (post ++ tl)) = Some (V6, x) /\
+  parse_network (text6_dc pre (post ++ tl)) = Some (V6, x, 128).
+Proof.
+  intros pre post tl vpre vpost vtl Hpre Hpost Ht Hlen x.
+  pose proof (ip6_text_dc _ _ _ _ _ _ Hpre Hpost Ht Hlen) as Hp.
+  destruct (text6_parts_no_char cSLASH _ _ _ _ _ _ Hpre Hpost Ht eq_refl eq_refl eq_refl) as [Hs _].
+  destruct (text6_parts_no_char cPCT _ _ _ _ _ _ Hpre Hpost Ht eq_refl eq_refl eq_refl) as [Hc _].
+  split; [apply parse_addr_v6|apply parse_network_v6]; assumption.
+Qed.
+
+Theorem addr6_text_plain : forall gs tl vgs vtl,
+  Forall2 hextet_text gs vgs -> tail_text tl vtl -> (length gs + length vtl = 8)%nat ->
+  parse_addr (join cCOLON (gs ++ tl)) = Some (V6, compose 0 (vgs ++ vtl)) /\
+  parse_network (join cCOLON (gs ++ tl)) = Some (V6, compose 0 (vgs ++ vtl), 128).
+Proof.
+  intros gs tl vgs vtl Hgs Ht Hlen.
+  pose proof (ip6_text_plain _ _ _ _ Hgs Ht Hlen) as Hp.
+  destruct (text6_parts_no_char cSLASH gs [] tl vgs [] vtl Hgs (Forall2_nil _) Ht eq_refl eq_refl eq_refl) as [_ Hs].
+  destruct (text6_parts_no_char cPCT gs [] tl vgs [] vtl Hgs (Forall2_nil _) Ht eq_refl eq_refl eq_refl) as [_ Hc].
+  split; [apply parse_addr_v6|apply parse_network_v6]; assumption.
+Qed.
+
+(* the integer n of an IPv6 address, written out in full or in the RFC 5952 form, is the address n *)
+Theorem addr6_render : forall n, n < 2 ^ 128 ->
+  parse_addr (render6_full n) = Some (V6, n) /\ parse_addr (render6_compressed n) = Some (V6, n) /\
+  parse_network (render6_full n) = Some (V6, n, 128) /\ parse_network (render6_compressed n) = Some (V6, n, 128).
+Proof.
+  intros n Hn.
+  pose proof (groups_of_len n) as Hlen. pose proof (groups_of_bound n) as Hb.
+  assert (Hfull : parse_addr (render6_full n) = Some (V6, n) /\ parse_network (render6_full n) = Some (V6, n, 128)).
+  { unfold render6_full. rewrite <- (app_nil_r (map hex4 (groups_of n))).
+    destruct (addr6_text_plain _ [] (groups_of n) [] (map_hextet_text hex4 _ hex4_text Hb) TT_none) as [A B].
+    - rewrite map_length, Hlen. reflexivity.
+    - rewrite !app_nil_r in *. rewrite groups_of_compose in A, B by exact Hn. split; assumption. }
+  assert (Hcomp : parse_addr (render6_compressed n) = Some (V6, n) /\ parse_network (render6_compressed n) = Some (V6, n, 128)).
+  { pose proof (ip6_render_compressed n Hn) as Hp. unfold render6_compressed in *.
+    destruct (best_run (groups_of n)) as [[s l]|] eqn:Eb.
+    - assert (Hb1 : Forall (fun v => v < 65536) (firstn s (groups_of n))).
+      { rewrite <- (firstn_skipn s (groups_of n)) in Hb. apply Forall_app in Hb. tauto. }
+      assert (Hb2 : Forall (fun v => v < 65536) (skipn (s + l) (groups_of n))).
+      { rewrite <- (firstn_skipn (s + l) (groups_of n)) in Hb. apply Forall_app in Hb. tauto. }
+      rewrite <- (app_nil_r (map hex_of (skipn (s + l) (groups_of n)))) in *.
+      destruct (text6_parts_no_char cSLASH _ _ [] _ _ [] (map_hextet_text hex_of _ hex_of_text Hb1)
+                  (map_hextet_text hex_of _ hex_of_text Hb2) TT_none eq_refl eq_refl eq_refl) as [Hs _].
+      destruct (text6_parts_no_char cPCT _ _ [] _ _ [] (map_hextet_text hex_of _ hex_of_text Hb1)
+                  (map_hextet_text hex_of _ hex_of_text Hb2) TT_none eq_refl eq_refl eq_refl) as [Hc _].
+      split; [apply parse_addr_v6|apply parse_network_v6]; assumption.
+    - rewrite <- (app_nil_r (map hex_of (groups_of n))) in *.
+      destruct (text6_parts_no_char cSLASH _ [] [] _ [] [] (map_hextet_text hex_of _ hex_of_text Hb)
+                  (Forall2_nil _) TT_none eq_refl eq_refl eq_refl) as [_ Hs].
+      destruct (text6_parts_no_char cPCT _ [] [] _ [] [] (map_hextet_text hex_of _ hex_of_text Hb)
+                  (Forall2_nil _) TT_none eq_refl eq_refl eq_refl) as [_ Hc].
+      split; [apply parse_addr_v6|apply parse_network_v6]; assumption. }
+  tauto.
+Qed.
+
+(* so: however the two IPv6 integers are written, ip_match compares the integers *)
+Theorem ip6_render_match : forall x net, x < 2 ^ 128 -> net < 2 ^ 128 ->
+  ip_match (render6_compressed x) (render6_full net) = Ok (x =? net) /\
+  ip_match (render6_full x) (render6_compressed net) = Ok (x =? net).
+Proof.
+  intros x net Hx Hnet.
+  destruct (addr6_render x Hx) as [A1 [A2 _]]. destruct (addr6_render net Hnet) as [_ [_ [B1 B2]]].
+  split.
+  - rewrite (ip_iff_w _ _ _ _ _ _ _ A2 B1). cbn [fam_eqb andb width]. apply f_equal, in_block_w_full.
+  - rewrite (ip_iff_w _ _ _ _ _ _ _ A1 B2). cbn [fam_eqb andb width]. apply f_equal, in_block_w_full.
 Qed.
